@@ -13,12 +13,22 @@ from .contracts import REGISTRY, LEMMAS
 from .engine import Exec, Unsupported, SpecDrift, solve, Obligation, State
 from .source import Repo, normalized_hash
 
-SPEC_MODULES = ["specs.heap"]
+SPEC_MODULES = ["specs.heap", "specs.graph", "specs.supervised"]
 
 
 def load_specs():
     for m in SPEC_MODULES:
         importlib.import_module(m)
+
+
+_ALL = []
+
+
+def _solve_idx(args):
+    i, timeout_ms = args
+    ob = _ALL[i]
+    solve(ob, timeout_ms)
+    return (i, ob.status, ob.seconds, ob.solver, getattr(ob, "reason", ""), str(ob.model)[:4000] if ob.model is not None else None)
 
 
 def _verify_one(args):
@@ -40,7 +50,10 @@ def _verify_one(args):
             for cfg in c.configs:
                 ex = Exec(repo, qualname, config=cfg)
                 obs += ex.verify()
+        out["_obs"] = obs
         for ob in obs:
+            if timeout_ms is None:
+                break
             solve(ob, timeout_ms)
             rec = {"name": ob.name, "kind": ob.kind, "status": ob.status, "seconds": round(ob.seconds, 4),
                    "line": ob.lineno, "text": ob.text, "solver": ob.solver}
@@ -103,23 +116,55 @@ def verify_lemma(repo, lem):
 
 
 def run(qualnames, timeout_ms=20000, jobs=None, dump=False):
-    jobs = min(jobs or 16, max(1, len(qualnames)))
-    if jobs == 1 or len(qualnames) == 1:
-        return [_verify_one((q, timeout_ms, dump)) for q in qualnames]
-    ctx = mp.get_context("fork")
-    with ctx.Pool(jobs) as pool:
-        return pool.map(_verify_one, [(q, timeout_ms, dump) for q in qualnames], chunksize=1)
+    """VC generation is done in this process (sub-second per function); all obligations of all functions are
+    then discharged by a pool of forked workers (they inherit the z3 terms)."""
+    global _ALL
+    jobs = jobs or 16
+    results = []
+    _ALL = []
+    index = []
+    for q in qualnames:
+        r = _verify_one((q, None, dump))
+        obs = r.pop("_obs", [])
+        for ob in obs:
+            index.append((r, ob))
+            _ALL.append(ob)
+        results.append(r)
+    if _ALL:
+        ctx = mp.get_context("fork")
+        with ctx.Pool(min(jobs, len(_ALL))) as pool:
+            solved = pool.map(_solve_idx, [(i, timeout_ms) for i in range(len(_ALL))], chunksize=1)
+        for (i, status, seconds, solver, reason, model) in solved:
+            r, ob = index[i]
+            rec = {"name": ob.name, "kind": ob.kind, "status": status, "seconds": round(seconds, 4),
+                   "line": ob.lineno, "text": ob.text, "solver": solver}
+            if dump and solver != "static":
+                import hashlib
+                d = os.path.join(os.path.dirname(os.path.dirname(os.path.abspath(__file__))), "scratch", "smt")
+                os.makedirs(d, exist_ok=True)
+                pth = os.path.join(d, hashlib.sha1(ob.name.encode()).hexdigest()[:16] + ".smt2")
+                with open(pth, "w") as fh:
+                    fh.write(ob.smt2())
+                rec["smt2"] = pth
+            if status != "unsat":
+                rec["reason"] = reason
+                if model:
+                    rec["model"] = model
+            r["obligations"].append(rec)
+    for r in results:
+        r["seconds"] = round(r["seconds"] + sum(o["seconds"] for o in r["obligations"]), 3)
+    return results
 
 
 if __name__ == "__main__":
     load_specs()
-    names = sys.argv[1:] or (sorted(REGISTRY) + ["lemma:" + k for k in sorted(LEMMAS)])
+    names = sys.argv[1:] or (sorted(q for q in REGISTRY if not REGISTRY[q].trusted) + ["lemma:" + k for k in sorted(LEMMAS)])
     res = run(names, jobs=int(os.environ.get("JOBS", "16")))
     bad = 0
     for r in res:
         n = len(r["obligations"])
         ok = sum(1 for o in r["obligations"] if o["status"] == "unsat")
-        print("%-50s %3d/%3d  %.2fs %s" % (r["function"], ok, n, r["seconds"], r["error"] or ""))
+        print("%-50s %3d/%3d  %.2fs %s" % (r["function"], ok, n, r["seconds"], (r["error"][0] + ": " + r["error"][1][-700:]) if r["error"] else ""))
         for o in r["obligations"]:
             if o["status"] != "unsat":
                 bad += 1
